@@ -495,10 +495,17 @@ static void generate_minimal_hash(Ports &p, Port_Matcher &pm)
     svec_t keys;
     cvec_t args;
 
+    //the hash is computed from the first component of an address, hence
+    //enumerated names and names with further components cannot be hashed
     bool enump = false;
-    for(unsigned i=0; i<p.ports.size(); ++i)
-        if(strchr(p.ports[i].name, '#'))
+    for(unsigned i=0; i<p.ports.size(); ++i) {
+        const char *name  = p.ports[i].name;
+        const char *slash = strchr(name, '/');
+        if(strchr(name, '#'))
             enump = true;
+        if(slash && slash[1] && slash[1] != ':')
+            enump = true;
+    }
     if(enump)
         return;
     for(unsigned i=0; i<p.ports.size(); ++i)
